@@ -487,7 +487,8 @@ PROPS["C26"] = {
                   "TopicID for a registered name), c26_sleep_from_awake_silent with c11_wake (both sides agree on 'asleep' after PINGRESP without a DISCONNECT), the topic tables of the two sides agree (Agree) — kept by "
                   "every REGISTER / SUBSCRIBE / gateway-REGISTER exchange (c26_agree_*) and, by induction, by ANY history of REGISTER / SUBSCRIBE exchanges from the initial states "
                   "(reach_inv, c26_partial_publish_after_any_history: a Publish on a registered name then reaches the broker under exactly that name; the models' handlers are shown "
-                  "to be such steps), c26_spec_* (sanity of the specification; c26_spec_agrees_with_broker). The property at full strength (C26Full: every script, composed model = specification) is stated and NOT proved; it is decided script by script: the "
+                  "to be such steps; Inv2 / reach2_inv / c26_partial_publish_after_any_history2 / c26_partial_ids_mean_one_name extend this to histories that also contain the gateway's own "
+                  "registrations for broker messages, in any interleaving), c26_spec_* (sanity of the specification; c26_spec_agrees_with_broker). The property at full strength (C26Full: every script, composed model = specification) is stated and NOT proved; it is decided script by script: the "
                   "system suite runs the REAL client library against the REAL gateway (Gateway.ListenAndServe, UDP loopback) and a conforming MQTT broker, runs the composed Lean model "
                   "(client model || lossless link || gateway model || broker) on the same scripts (correspondence) and evaluates the specification Spec/System.lean on the "
                   "implementation's own results (every call's result, the broker's received publishes and subscription table, every expected handler invocation). Five genuine "
